@@ -678,10 +678,9 @@ func c32Canonical(st *c32State) []byte {
 		inc = append(inc, h.String())
 	}
 	sort.Strings(inc)
-	b.WriteString(";incomplete:" + strings.Join(inc, ",") + ";queue:")
-	for e := st.f.requestQueue.queue.Front(); e != nil; e = e.Next() {
-		b.WriteString(e.Value.(*messages.BlockRequestMessage).String() + ";")
-	}
+	// the request queue is write-only for Process and OnBlockAnnounce (only NextActions, which is
+	// not an op here, reads it): it is left out of the state key
+	b.WriteString(";incomplete:" + strings.Join(inc, ","))
 	b.WriteString(";dev:" + st.devKind)
 	return []byte(b.String())
 }
@@ -731,13 +730,13 @@ func TestVerif_C32(t *testing.T) {
 	type runCfg struct{ nodes, depth, batch int }
 	runs := []runCfg{{2, 3, 2}, {3, 3, 2}, {4, 3, 2}, {5, 2, 2}}
 	if verifmc.Thorough() {
-		runs = []runCfg{{2, 3, 3}, {3, 3, 3}, {4, 3, 3}, {5, 2, 3}, {5, 3, 2}, {6, 2, 2}}
+		runs = []runCfg{{2, 3, 3}, {3, 3, 3}, {4, 3, 3}, {6, 2, 2}, {5, 2, 3}, {5, 3, 2}}
 	}
 	r.Rule = fmt.Sprintf("for every rooted tree shape with the given number of nodes (genesis = finalised root) and every (nodes, depth, batch) in %v: BFS over histories of <= depth Process calls on a fresh "+
 		"FullSyncStrategy with the real blockImporter; one call = a batch of 1..batch responses; response alphabet = every contiguous segment of every "+
 		"root-to-leaf path as ascending or descending response and a body-only response (answer to a body request by hash) per block, a call may also be OnBlockAnnounce(block) for any block (creates an incomplete block + body request), plus (at most one per history: alone as ascending or descending response, or ascending and paired with an ascending honest response in either order) "+
 		"every deviation-1 response: forged stated Hash (garbage / any other block's hash) at any position, re-linked parent, number +-1, missing header, "+
-		"missing body, glued uncle+child pair, empty response, uncompleted task; states merged on (known headers, parked fragments incl. stated/real hashes, incomplete blocks, request queue, deviation used)", runs)
+		"missing body, glued uncle+child pair, empty response, uncompleted task; states merged on (known headers, parked fragments incl. stated/real hashes, incomplete blocks, deviation used; the request queue is write-only for these ops and not part of the key)", runs)
 	totalShapes := 0
 	perTree := map[string]any{}
 	r.Extra["per_tree"] = perTree
